@@ -415,8 +415,18 @@ def do_step(lens, slots, st):
                 if o is None or isinstance(o, dict):
                     return {'skipped': 'no object'}
                 before = snap_obj(o)
+                vkw_ = dict(st.get('kw', {}))
+                if vkw_.get('num_points') == 'native':
+                    # "show without resampling": as many points as the
+                    # displayed window has PSF pixels (the window is the
+                    # bounding box of psf > threshold)
+                    try:
+                        b_ = o._find_bounds(vkw_.get('threshold', 0.05))
+                        vkw_['num_points'] = int(b_[2] - b_[0]) or 128
+                    except Exception:    # noqa: input generation only
+                        vkw_['num_points'] = 128
                 try:
-                    o.view(**st.get('kw', {}))
+                    o.view(**vkw_)
                 finally:
                     plt.close('all')
                 after = snap_obj(o)
@@ -579,10 +589,27 @@ def gen_client(ch, kind, meta):
             kw2 = dict(kw, field=list(_fields(ch)))
             steps.append({'c': 'method', 'slot': 'o', 'name': 'coeffs'})
             steps.append({'c': 'new', 'cls': cls, 'slot': 'o2', 'kw': kw2})
-        if any(s_['c'] == 'method' for s_ in steps) and ch.chance(0.6):
+        if cls == 'FFTPSF' and ch.side('psf-attr').chance(0.6):
+            # the PSF itself is only available as the documented result
+            # attribute `psf`: read it, look at it without resampling (lin or
+            # log, 2d or 3d), read it again
+            sc = ch.side('psf-attr-kw')
+            steps.append({'c': 'method', 'slot': 'o', 'name': 'psf',
+                          'rep': 'pa', 'ret_only': True})
+            for _ in range(sc.randint(1, 2)):
+                steps.append({'c': 'view', 'slot': 'o', 'kw': {
+                    'projection': sc.pick(['2d', '3d']),
+                    'log': sc.chance(0.6),
+                    'threshold': sc.pick([0.05, 0.25, 0.01]),
+                    'num_points': sc.pick(['native', 'native', 128])}})
+            steps.append({'c': 'method', 'slot': 'o', 'name': 'psf',
+                          'rep': 'pa', 'ret_only': True})
+        if any(s_['c'] == 'method' and 'rep' not in s_
+               for s_ in steps) and ch.chance(0.6):
             # the same query again on the same object, after the others:
             # "the same analysis call repeated returns identical results"
-            first = next(s_ for s_ in steps if s_['c'] == 'method')
+            first = next(s_ for s_ in steps
+                         if s_['c'] == 'method' and 'rep' not in s_)
             first['rep'] = 'm0'
             first['ret_only'] = True
             steps.append({'c': 'method', 'slot': 'o', 'name': first['name'],
@@ -845,14 +872,21 @@ def execute(prop, hist):
                 stats['faults']['ray_failure'] = \
                     stats['faults'].get('ray_failure', 0) + 1
             if obs.get('view_changed'):
-                # Observation, not a verdict: RayFan.view and OPDFan.view of
-                # the pinned tree mask vignetted samples of their *stored*
-                # data with NaN in place.  The statement speaks of calls
-                # (their results, the caller's arguments, the lens), and the
-                # calls around a view() are compared; attributes are not
-                # calls, so this is only counted.
+                # (1c) looking at a result does not change it: the stored
+                # results of an analysis object (its documented attributes
+                # are the only way to read them) are what a repeated query
+                # returns.  RayFan / OPDFan / FFTPSF.view of the pinned tree
+                # wrote into them (fixed in /repo, known_findings.json).
                 probe('view_changed_stored_attributes:' +
                       type(slots[ci].get(st['slot'])).__name__)
+                stats['oracle_checks'] += 1
+                raise Violation(
+                    'not-repeatable',
+                    f'C13/view/stored-result-changed/'
+                    f'{type(slots[ci].get(st["slot"])).__name__}',
+                    f'client {ci} ({cl["kind"]}) step {st}: view() changed '
+                    f'the stored results of the analysis object: '
+                    f'{obs["view_changed"]}')
             # (3) caller-owned arguments untouched
             stats['oracle_checks'] += 1
             if obs.get('mutated'):
